@@ -8,9 +8,9 @@ namespace MakoModel.Conc
 
 /-- C14's freshness rule, relative to the file `f` as it was at the start of the call: the template is compiled
     from content no older than `f`, or `f`'s mtime is not later than the compile stamp (so the rule does not ask
-    for a reload).  Results served by the second-chance read are excluded (that is F11). -/
+    for a reload).  No path is excluded any more: a second-chance hit goes through `_check` as well. -/
 def FreshRes (r : Res) : Prop :=
-  ∀ t f, r = .tmpl t false (some f) → f.ver ≤ t.ver ∨ f.mtime ≤ t.stamp
+  ∀ t b f, r = .tmpl t b (some f) → f.ver ≤ t.ver ∨ f.mtime ≤ t.stamp
 
 def Pc.Fresh (fs0 : FS) : Pc → Prop
   | .gW u d t => t.dir = d ∧ t.uri = u ∧ ∀ f0, fs0 d u = some f0 → f0.ver ≤ t.ver
@@ -32,7 +32,7 @@ def Pc.Fresh (fs0 : FS) : Pc → Prop
 @[simp] theorem Pc.fresh_gRel {fs0 : FS} {r} : (Pc.gRel r).Fresh fs0 ↔ FreshRes r := Iff.rfl
 @[simp] theorem Pc.fresh_rK {fs0 : FS} {t c k l u} : (Pc.rK t c k l u).Fresh fs0 ↔ True := Iff.rfl
 
-@[simp] theorem Pc.fresh_aG {fs0 : FS} {k} : (Pc.aG k).Fresh fs0 ↔ True := Iff.rfl
+@[simp] theorem Pc.fresh_gRelS {fs0 : FS} {u t} : (Pc.gRelS u t).Fresh fs0 ↔ True := Iff.rfl
 @[simp] theorem Pc.fresh_aS {fs0 : FS} {k} : (Pc.aS k).Fresh fs0 ↔ True := Iff.rfl
 
 /-- the snapshot `fs0` is a past state of the file system `fs` -/
@@ -77,8 +77,8 @@ theorem fresh_ret {th : Thread} {r : Res} (hr : ∀ r ∈ th.results, FreshRes r
   · exact hr _ h'
   · exact h
 
-theorem freshRes_other {r : Res} (h : ∀ t f, r ≠ .tmpl t false (some f)) : FreshRes r :=
-  fun t f e => absurd e (h t f)
+theorem freshRes_other {r : Res} (h : ∀ t b f, r ≠ .tmpl t b (some f)) : FreshRes r :=
+  fun t b f e => absurd e (h t b f)
 
 theorem fresh_afterScan {th : Thread} (hr : ∀ r ∈ th.results, FreshRes r)
     (memo : Nat → Nat → Option Nat) (t : Tmpl) (ctx : Nat) (kinds todo used : List Nat) :
@@ -89,21 +89,18 @@ theorem fresh_afterScan {th : Thread} (hr : ∀ r ∈ th.results, FreshRes r)
   · exact ⟨by simp, fresh_ret hr (freshRes_other (by simp))⟩
   · exact ⟨by simp, hr⟩
 
-theorem freshRes_okRes_true (th : Thread) (t : Tmpl) : FreshRes (th.okRes t true) :=
-  freshRes_other (by simp [Thread.okRes])
-
 theorem freshRes_okRes_built {th : Thread} {t : Tmpl}
     (h : ∀ f0, th.fs0 t.dir t.uri = some f0 → f0.ver ≤ t.ver) : FreshRes (th.okRes t false) := by
-  intro t' f e
-  simp only [Thread.okRes, Res.tmpl.injEq, true_and] at e
-  obtain ⟨rfl, e⟩ := e
+  intro t' b f e
+  simp only [Thread.okRes, Res.tmpl.injEq] at e
+  obtain ⟨rfl, _, e⟩ := e
   exact Or.inl (h f e)
 
 theorem freshRes_okRes_checked {th : Thread} {t : Tmpl} {fs : FS} {f : File} (hs : Past th.fs0 fs)
     (hf : fs t.dir t.uri = some f) (hm : f.mtime ≤ t.stamp) : FreshRes (th.okRes t false) := by
-  intro t' f0 e
-  simp only [Thread.okRes, Res.tmpl.injEq, true_and] at e
-  obtain ⟨rfl, e⟩ := e
+  intro t' b f0 e
+  simp only [Thread.okRes, Res.tmpl.injEq] at e
+  obtain ⟨rfl, _, e⟩ := e
   obtain ⟨f', hf', _, hmt⟩ := hs _ _ _ e
   rw [hf] at hf'
   simp at hf'
@@ -143,7 +140,7 @@ theorem tstep_fresh {cfg : Cfg} {tid : Tid} {sh sh' : Sh} {th th' : Thread} (hch
     | (show Pc.Fresh _ th.pc; rw [‹th.pc = _›]; simp; exact hp)
     | exact fresh_ret hr hp
     | (apply fresh_ret hr; apply freshRes_other; simp; done)
-    | (simp; exact freshRes_okRes_true _ _)
+    | (exfalso; simp_all; done)
     | exact fresh_ret hr (freshRes_okRes_checked hs ‹_› ‹_›)
     | (simp; obtain ⟨hd, hu, hv⟩ := hp; subst hd; subst hu; exact freshRes_okRes_built hv)
     | (simp; apply freshRes_other; simp; done)
